@@ -542,3 +542,34 @@ def bool_atoms(test):
     else:
         out.add(U(test))
     return out
+
+
+def resolve_single(func, expr, attrs=False, rounds: int = 5):
+    """``expr`` with every local name that is assigned exactly once in ``func`` (by a plain assignment) replaced by the
+    assigned expression, transitively.  With ``attrs`` also ``self.<field>`` values stored exactly once by ``func``.
+    (The caller is responsible for the assignment dominating the use; meant for straight-line helper code.)"""
+    counts, single = {}, {}
+    for n in ast.walk(func):
+        if isinstance(n, ast.Name) and isinstance(n.ctx, (ast.Store, ast.Del)):
+            counts[n.id] = counts.get(n.id, 0) + 1
+    for a in func.args.args + func.args.kwonlyargs:
+        counts[a.arg] = counts.get(a.arg, 0) + 1
+    attr_counts = {}
+    for n in ast.walk(func):
+        if isinstance(n, ast.Assign) and len(n.targets) == 1:
+            t = n.targets[0]
+            if isinstance(t, ast.Name) and counts.get(t.id) == 1:
+                single[t.id] = _strip(n.value)
+            elif attrs and isinstance(t, ast.Attribute) and _attr_key(t):
+                attr_counts[_attr_key(t)] = attr_counts.get(_attr_key(t), 0) + 1
+                single[_attr_key(t)] = _strip(n.value)
+    for k, c in attr_counts.items():
+        if c != 1:
+            single.pop(k, None)
+    cur = _strip(expr)
+    for _ in range(rounds):
+        nxt = _Sub(single).visit(copy.deepcopy(cur))
+        if ast.dump(nxt) == ast.dump(cur):
+            break
+        cur = nxt
+    return cur
